@@ -270,6 +270,69 @@ def run_reentrancy(ctx):
                 ctx.violation('lost-under-concurrency', 'reentrancy', f'messages of concurrent calls never reached the wire: {[(a, hex(t), d.hex()) for (a, t, d), n in miss]}', text, 'asan', meta)
         sweep.pause_stats(ctx, r.events, 'reentrancy')
 
+def run_repeat(ctx):
+    """the same accepted call twice in a row, in a NORMAL session in which the peer acknowledges everything and the state tracking knows the
+    addressed train / accessory / output: what the library believes about the equipment never decides whether a low-level call submits its
+    message - every accepted call submits exactly one"""
+    from .. import cfggen, statemodel
+    from .C07 import cfg_dir
+    jobs = []
+    for k in range(ctx.n(6, 150)):
+        rng = ctx.sub_rng('c18rep', k)
+        cfg = cfggen.gen_config(rng, nboards=rng.randrange(1, 3), with_initial=False)
+        b0 = cfg['boards'][0]
+        b0['uid'] = bytes([b0['uid'][0] | 0x90]) + b0['uid'][1:]
+        if not cfg['trains']:
+            cfg['trains'].append({'id': 'xt18', 'addr': cfggen.free_dcc(cfg, (0x12, 0x34)), 'steps': 28, 'calibration': None, 'peripherals': None})
+        d = cfggen.write_config(cfg, cfg_dir(f'c18rep_{k}'))
+        nodes = [((0, 0, 0), b0['uid'])] + [((i + 1, 0, 0), b['uid']) for i, b in enumerate(cfg['boards'][1:])]
+        sc = Scn(seed=ctx.seed * 149 + k, watchdog=180000)
+        sc.add(*cfggen.bus_lines(cfg, nodes), 'bus brackets 0', f'start {d} 0', 'quiesce', 'flush', 'quiesce')
+        cases = []
+        def add(name, ad, a):
+            st, data = S.expected(name, ad, a)
+            if st != 'accept':
+                return
+            for rep in range(rng.choice([2, 3])):
+                sc.add(f'mark c{len(cases)}', call(name, *S.tokens(name, ad, a)), 'flush', 'quiesce')
+                cases.append((name, ad, data))
+        for t in cfg['trains']:
+            fmt = {14: 0, 28: 2, 126: 3}[t['steps']]
+            for sp in (rng.randrange(2, 100), 0, rng.randrange(2, 100) | 0x80):
+                add('bidib_send_cs_drive', (0, 0, 0), {'al': t['addr'][1], 'ah': t['addr'][0] & 0x3F, 'atype': 0, 'fmt': fmt, 'active': 0x01, 'speed': sp, 'f1': 0, 'f2': 0, 'f3': 0, 'f4': 0})
+            add('bidib_send_cs_drive', (0, 0, 0), {'al': t['addr'][1], 'ah': t['addr'][0] & 0x3F, 'atype': 0, 'fmt': fmt, 'active': 0x03, 'speed': 5, 'f1': 0x10, 'f2': 0, 'f3': 0, 'f4': 0})
+        for st_ in (0x03, 0x00, 0x03):
+            add('bidib_send_cs_set_state', (0, 0, 0), {'state': st_})
+        for b in cfg['boards']:
+            ad = next(a_ for a_, u_ in nodes if u_ == b['uid'])
+            for a in (b.get('points_board') or [])[:2]:
+                add('bidib_send_accessory_set', ad, {'anum': a['number'], 'aspect': a['aspects'][0][1]})
+            for a in (b.get('points_dcc') or [])[:2]:
+                add('bidib_send_cs_accessory', (0, 0, 0), {'al': a['addr'][1], 'ah': a['addr'][0] & 0x3F, 'atype': 0, 'data': 0x21, 'time': 0})
+            for a in (b.get('peripherals') or [])[:2]:
+                add('bidib_send_lc_output', ad, {'p0': a['port'][0], 'p1': a['port'][1], 'stat': a['aspects'][0][1]})
+        sc.add(f'mark c{len(cases)}', 'stop')
+        jobs.append((sc.text(), cases))
+    res = runner.run_many('asan', [(i, j[0]) for i, j in enumerate(jobs)], timeout=600)
+    for j, r in zip(jobs, res):
+        meta = {'kind': 'repeat-normal-mode'}
+        if ctx.generic_failures(r, meta) or runner.outcome(r) != 'ok':
+            continue
+        ret = next((e for e in r.events if e.get('e') == 'ret' and e.get('f') == 'bidib_start_pointer'), None)
+        if not ret or ret.get('r') != 0:
+            ctx.inconclusive.append('repeat part: start failed')
+            continue
+        seen = batch.split_by_marks(r.events)
+        for i, (name, ad, data) in enumerate(j[1]):
+            t_ = model.C(S.rows()[name]['type'])
+            txm = [e for e in seen.get(i, []) if e.get('e') == 'txm' and e['type'] == t_ and tuple(e['addr']) == tuple(ad)]
+            ctx.evaluations += 1
+            ctx.count('repeated_calls_checked')
+            if len(txm) != 1 or bytes.fromhex(txm[0]['data']) != data:
+                ctx.violation('not-exactly-one', name + '/repeated', f'{name} to {ad} (call #{i} of the normal-mode session, same arguments as its neighbours): {len(txm)} message(s) of its type on the wire '
+                              f'{[e["data"] for e in txm][:2]}, expected exactly one with data {data.hex()}', r.scenario, r.flavour, meta)
+                break
+
 def run(ctx):
     cases = gen_cases(ctx)
     ctx.rule = ('boundary sweep: every public bidib_send_* x each scalar argument over 0..255 (others at a valid default) x '
@@ -306,6 +369,7 @@ def run(ctx):
             for v in r.viols():
                 ctx.violation(v['cls'], v['msg'].split(' ')[0], v['msg'], r.scenario, 'asan')
     run_reentrancy(ctx)
+    run_repeat(ctx)
     ctx.cov['functions_exercised'] = len(fns)
     ctx.cov['functions_in_spec'] = len(S.rows())
     ctx.sample({'fn': cases[0][0], 'addr': cases[0][1], 'args': {k: (v.hex() if isinstance(v, bytes) else v) for k, v in cases[0][2].items()}})
